@@ -6,39 +6,39 @@
 // ASSUMED: a LimitStore modifies only its own internal state, which is disjoint from the rate limiter's fields and maps.
 package _interface
 
-//@ interface (LimitStore).Get(s, cluster, name) props C13
+//@ interface (LimitStore).Get(s, cluster, name) props C13, C19
 //@   modifies storeops
 //@   ensures storeops == old(storeops) + 1
-//@ interface (LimitStore).Save(s, cluster, condition) props C13
+//@ interface (LimitStore).Save(s, cluster, condition) props C13, C19
+//@   modifies storeops, localsaves, localsaved[condition.Name]
+//@   ensures storeops == old(storeops) + 1 && localsaves == old(localsaves) + 1 && localsaved[condition.Name] == condition.Spec.UpstreamCluster
+//@ interface (LimitStore).Delete(s, cluster, name) props C13, C19
+//@   modifies storeops, localdeletes
+//@   ensures storeops == old(storeops) + 1 && localdeletes == old(localdeletes) + 1
+//@ interface (LimitStore).DeleteUpstream(s, cluster) props C13, C19
+//@   modifies storeops, localdeletes
+//@   ensures storeops == old(storeops) + 1 && localdeletes == old(localdeletes) + 1
+//@ interface (LimitStore).ListUpstream(s, cluster) props C13, C19
 //@   modifies storeops
 //@   ensures storeops == old(storeops) + 1
-//@ interface (LimitStore).Delete(s, cluster, name) props C13
+//@ interface (LimitStore).List(s, selector) props C13, C19
 //@   modifies storeops
 //@   ensures storeops == old(storeops) + 1
-//@ interface (LimitStore).DeleteUpstream(s, cluster) props C13
+//@ interface (LimitStore).GetFlowControl(s, cluster, name) props C13, C19
 //@   modifies storeops
 //@   ensures storeops == old(storeops) + 1
-//@ interface (LimitStore).ListUpstream(s, cluster) props C13
+//@ interface (LimitStore).SyncFlowControl(s, cluster, fc) props C13, C19
 //@   modifies storeops
 //@   ensures storeops == old(storeops) + 1
-//@ interface (LimitStore).List(s, selector) props C13
+//@ interface (LimitStore).DeleteInstanceState(s, instance) props C13, C19
 //@   modifies storeops
 //@   ensures storeops == old(storeops) + 1
-//@ interface (LimitStore).GetFlowControl(s, cluster, name) props C13
+//@ interface (LimitStore).Load(s) props C13, C19
 //@   modifies storeops
 //@   ensures storeops == old(storeops) + 1
-//@ interface (LimitStore).SyncFlowControl(s, cluster, fc) props C13
+//@ interface (LimitStore).Flush(s) props C13, C19
 //@   modifies storeops
 //@   ensures storeops == old(storeops) + 1
-//@ interface (LimitStore).DeleteInstanceState(s, instance) props C13
-//@   modifies storeops
-//@   ensures storeops == old(storeops) + 1
-//@ interface (LimitStore).Load(s) props C13
-//@   modifies storeops
-//@   ensures storeops == old(storeops) + 1
-//@ interface (LimitStore).Flush(s) props C13
-//@   modifies storeops
-//@   ensures storeops == old(storeops) + 1
-//@ interface (LimitStore).Stop(s) props C13
+//@ interface (LimitStore).Stop(s) props C13, C19
 //@   modifies storeops
 //@   ensures storeops == old(storeops) + 1
